@@ -365,6 +365,20 @@ class C15(CheckBase):
         from chameleon.zpt import template as zt
         self.zt = zt
         zt.id = sim_id      # type: ignore[attr-defined]
+        check = self
+
+        class _OsView:
+            """``os`` as chameleon.zpt.template sees it: the process id is
+            the simulated process's."""
+
+            def __getattr__(self, name):
+                return getattr(os, name)
+
+            def getpid(self):
+                w = getattr(check, "_cur_world", None)
+                p = w.current_proc() if w is not None else None
+                return getattr(p, "pid", 100)
+        zt.os = _OsView()   # type: ignore[attr-defined]
         self._ensure_alt()
         # fixed warm-up run so that lazily filled process-wide caches do
         # not change the number of events of the first counted run
@@ -399,6 +413,11 @@ class C15(CheckBase):
         if hasattr(self.zt, "_PROCESS_TOKEN"):
             self.zt._PROCESS_TOKEN = "%032x" % self._tokens
         _GREET_AT[0] = None     # (a new address space)
+        # ... and whatever else the module keeps per process starts over
+        if hasattr(self.zt, "_identities_count"):
+            import itertools
+            self.zt._identities.clear()
+            self.zt._identities_count = itertools.count(1)
 
     # -- building templates ----------------------------------------------------
     def _cls(self, name: str):
@@ -931,6 +950,7 @@ class C15(CheckBase):
         if needs_counts and not case.get("_dry"):
             self._counts = self._dry_counts(case)
         world = World(log, plan={}, block=case.get("block", 4096), tag="c15")
+        self._cur_world = world
         world.pyc_steps = True
         world.activate()
         try:
@@ -1128,6 +1148,9 @@ class C15(CheckBase):
                 pname = pd["name"]
                 if pname not in procs:
                     procs[pname] = world.new_proc(pname)
+                    # (process ids start over with every restart - a
+                    # container's main process is number 1 every time)
+                    procs[pname].pid = 100 + len(procs) - 1
                     loader_by_proc[pname] = ModuleLoader(world.path("cache"))
                 proc = procs[pname]
 
